@@ -2,7 +2,7 @@
 CHECK = {'level': 'exploration',
  'rule': 'rapidcheck generates a history of <= 60 (thorough: 80) abstract value/list/table/packet operations that is interpreted against the real '
          'objects and a C++ model written from cif.h; after every operation the result code and the full structure of every live root value, '
-         'packet and borrowed member reference are compared.  non-trivial = the history contains a clone or copy-in whose source or copy is '
+         'packet and borrowed member reference are compared, and every number reachable in them must have the value and su (bit for bit) of a number freshly parsed from its own text.  non-trivial = the history contains a clone or copy-in whose source or copy is '
          'later mutated / re-initialised / removed / freed, or a removed member that is later mutated or freed, or the documented aliasing '
          'case (a member passed back into its own slot); distinct = hash of the op text',
  'assumptions': ['member pointers obtained from get_element_at / get_item_by_key / packet_get_item are taken to stay valid across operations that do '
